@@ -1,4 +1,5 @@
 import LeptosModel.Proofs.RViewReactive
+import LeptosModel.Proofs.RViewFor
 /-!
 # Proofs/RViewInv — the invariant of mounted reactive views whose dynamic parts read signals only
 -/
@@ -349,6 +350,8 @@ def Good (K : Nat) (st : St) : View → RState → Prop
   | .either c a b, .either e c' a' b' left inner =>
     c = c' ∧ a = a' ∧ b = b' ∧ EffOK K st e c (fun v => left = (v != 0)) ∧
       (left = true → Good K st a inner) ∧ (left = false → Good K st b inner)
+  | .forKeyed sel lists, .forK e sel' lists' ks _ =>
+    sel = sel' ∧ lists = lists' ∧ EffOK K st e sel (fun v => ks.hashed = listAt lists v) ∧ KOK ks
   | _, _ => False
 
 def AState.effs : AState → List Nat
@@ -429,7 +432,10 @@ theorem Good.ext {K : Nat} {A : Nat → Prop} {st st' : St} (hi : RInv K st) (hx
       · intro hl; exact iha inner (h.2.2.2.2.1 hl) (fun e he => ha e (by simp [effsOf, he]))
       · intro hl; exact ihb inner (h.2.2.2.2.2 hl) (fun e he => ha e (by simp [effsOf, he]))
   | «show» c a b _ _ => intro t h _; cases t <;> simp only [Good] at h
-  | forKeyed sel lists => intro t h _; cases t <;> simp only [Good] at h
+  | forKeyed sel lists =>
+    intro t h ha
+    cases t <;> simp only [Good] at h ⊢
+    next e sel' lists' ks texts => exact ⟨h.1, h.2.1, h.2.2.1.ext hi hx (ha e (by simp [effsOf])), h.2.2.2⟩
 
 
 /-! ## a tree without pending effects shows the fresh render -/
@@ -520,7 +526,12 @@ theorem Good.serialize_eq {K : Nat} {st : St} :
         rw [← hc]; simp only [Bool.false_eq_true, if_false]
         exact ihb inner (h.2.2.2.2.2 hl) (fun e he => hn e (by simp [effsOf, he]))
   | «show» c a b _ _ => intro t h _; cases t <;> simp only [Good] at h
-  | forKeyed sel lists => intro t h _; cases t <;> simp only [Good] at h
+  | forKeyed sel lists =>
+    intro t h hn
+    cases t <;> simp only [Good] at h
+    next e sel' lists' ks texts =>
+      have := h.2.2.1.cur_of_idle (hn e (by simp [effsOf]))
+      simp only [RView.serialize, render, forRows_eq h.2.2.2, this]
 
 
 /-! ## build -/
@@ -709,7 +720,7 @@ def View.core : View → Bool
   | .dynText _ => true
   | .either _ a b => a.core && b.core
   | .show _ _ _ => false
-  | .forKeyed _ _ => false
+  | .forKeyed _ _ => true
 
 structure Built (K : Nat) (st : St) (v : View) (t : RState) (st' : St) : Prop where
   inv : RInv K st'
@@ -855,7 +866,32 @@ theorem build_spec {K : Nat} : ∀ (v : View) (st : St), RInv K st → v.wf K = 
         have hl1 : (newEff st c).2.2.prog.length = st.prog.length + 1 := by rw [hn.prog]; simp
         omega
   | «show» c a b _ _ => intro st _ _ hc; simp [View.core] at hc
-  | forKeyed sel lists => intro st _ _ hc; simp [View.core] at hc
+  | forKeyed sel lists =>
+    intro st hi hw _
+    obtain ⟨hsel, hl⟩ := wf_forKeyed hw
+    have hs : sigOnly K sel = true := by simp [sigOnly, hsel.1, hsel.2.1, hsel.2.2]
+    have hn := newEff_spec hi hs
+    rw [build_forKeyed]
+    dsimp only
+    obtain ⟨n, hbn⟩ := buildFor_st (newEff st sel).2.2 (listAt lists (newEff st sel).2.1)
+    have hx2 : Ext K (fun _ => False) (newEff st sel).2.2
+        ((buildFor (newEff st sel).2.2 (listAt lists (newEff st sel).2.1)).2.2.spawn (newEff st sel).1) := by
+      rw [hbn]
+      have h1 : Ext K (fun _ => False) (newEff st sel).2.2 { (newEff st sel).2.2 with next := n } :=
+        Ext.of_rs_prog _ (fun _ hf => hf.elim) rfl rfl (fun _ h => h)
+      exact h1.trans (spawn_ext _ _)
+    refine ⟨?_, hn.ext.trans hx2,
+      ⟨rfl, rfl, hn.effOK hi hx2 (by simp [St.spawn]) (buildFor_hashed _ _),
+        buildFor_kok _ (listAt_nodup hl _)⟩, ?_, by simp [effsOf], ?_⟩
+    · rw [hbn]
+      have h1 : RInv K { (newEff st sel).2.2 with next := n } := hn.inv.of_rs_prog rfl rfl
+      exact spawn_inv h1 _
+    · intro e he
+      simp only [effsOf, List.mem_singleton] at he
+      rw [he, hn.he, hbn]
+      show _ ∧ _ < (newEff st sel).2.2.prog.length
+      rw [hn.prog]; simp
+    · rw [hbn]; exact ⟨hn.zombies, hn.root, hn.rootN, hn.disposed⟩
 
 
 /-! ## writing a signal -/
@@ -1029,7 +1065,10 @@ theorem Good.map {K : Nat} {st st' : St} :
       · intro hl; exact iha inner (h.2.2.2.2.1 hl) (fun e x cur he => hm e x cur (by simp [effsOf, he]))
       · intro hl; exact ihb inner (h.2.2.2.2.2 hl) (fun e x cur he => hm e x cur (by simp [effsOf, he]))
   | «show» c a b _ _ => intro t h _; cases t <;> simp only [Good] at h
-  | forKeyed sel lists => intro t h _; cases t <;> simp only [Good] at h
+  | forKeyed sel lists =>
+    intro t h hm
+    cases t <;> simp only [Good] at h ⊢
+    next e sel' lists' ks texts => exact ⟨h.1, h.2.1, hm e _ _ (by simp [effsOf]) h.2.2.1, h.2.2.2⟩
 
 theorem Good.after_set {K : Nat} {st : St} (hi : RInv K st) (v : View) (t : RState) (h : Good K st v t)
     (id : Nat) (w : Int) : Good K (setSig st id w) v t :=
@@ -1107,6 +1146,10 @@ theorem Good.effOK {K : Nat} {st : St} :
         | true => exact iha inner (h.2.2.2.2.1 hl) e he
         | false => exact ihb inner (h.2.2.2.2.2 hl) e he
   | «show» c a b _ _ => intro t h _ _; cases t <;> simp only [Good] at h
-  | forKeyed sel lists => intro t h _ _; cases t <;> simp only [Good] at h
+  | forKeyed sel lists =>
+    intro t h e he
+    cases t <;> simp only [Good] at h
+    next e' sel' lists' ks texts =>
+      simp only [effsOf, List.mem_singleton] at he; subst he; exact ⟨sel, _, h.2.2.1⟩
 
 end Leptos.RView
